@@ -99,6 +99,9 @@ def search(ctx):
                     fails.append({'element': el, 'what': why[:600], 'class': 'array', 'replay': why[:600]})
         except TypeError:
             ctx.dist['array-valued s not accepted:' + kind] = ctx.dist.get('array-valued s not accepted:' + kind, 0) + 1
+    from .. import history as H
+    for el in ('H', 'C', 'FE', 'AU', 'U'):
+        fails += H.narrow_int_replays(ctx, 'xfab.structure.FormFactor(%r, s)' % el, lambda x, e=el: structure.FormFactor(e, x), [0, 1, 2])
     return fails
 
 
